@@ -5,7 +5,7 @@ import tablelib as T
 from c12 import float_in_domain
 
 GO_CMDS = T.GO_CMDS
-TRANSLATORS = []
+TRANSLATORS = T.TRANSLATORS
 COQ_PROJECTS = T.COQ_PROJECTS
 TRUSTED = T.TRUSTED + ["literal.Parse and time.Parse of the constants in a HAVING expression are oracles: the harness ships the "
                        "parsed value / comparable string with each literal and time token"]
